@@ -108,6 +108,10 @@ type Spec struct {
 	Services    []string `json:"svc,omitempty"`
 	// Pause is the pause schedule of the client's own blocked services.
 	Pause *Pause `json:"pause,omitempty"`
+	// IgnoreLog / IgnoreStats: the client's "do not log" / "do not count"
+	// flags (part of what the registry stores and the configuration keeps).
+	IgnoreLog   bool `json:"ign_log,omitempty"`
+	IgnoreStats bool `json:"ign_stats,omitempty"`
 }
 
 // Op is one generated operation.
@@ -197,6 +201,8 @@ func genSpec(t *rapid.T) *Spec {
 	s.OwnServices = rapid.Bool().Draw(t, "own_svc")
 	s.Services = rapid.SliceOfNDistinct(rapid.SampledFrom(svcPool), 0, 2, rapid.ID[string]).Draw(t, "svc")
 	s.Pause = genPause(t, "pause")
+	s.IgnoreLog = rapid.IntRange(0, 3).Draw(t, "ign_log") == 0
+	s.IgnoreStats = rapid.IntRange(0, 3).Draw(t, "ign_stats") == 0
 	return s
 }
 
@@ -666,6 +672,7 @@ func toPersistent(s *Spec) (*client.Persistent, error) {
 	p := &client.Persistent{Name: s.Name, UID: client.MustNewUID(), UseOwnSettings: s.OwnSettings, FilteringEnabled: s.Filtering,
 		SafeBrowsingEnabled: s.SafeBrowse, ParentalEnabled: s.Parental, UseOwnBlockedServices: s.OwnServices}
 	p.SafeSearchConf.Enabled = s.SafeSearch
+	p.IgnoreQueryLog, p.IgnoreStatistics = s.IgnoreLog, s.IgnoreStats
 	w, err := s.Pause.weekly()
 	if err != nil {
 		return nil, err
@@ -1370,7 +1377,7 @@ func (r *runner) snapshot() map[string]clientSnap {
 			ids = append(ids, "cid:"+cid)
 		}
 		sort.Strings(ids)
-		out[c.Name] = clientSnap{ids: ids, settings: fmt.Sprintf("own=%v/%v/%v/%v/%v svc=%v/%v pause=%s", c.UseOwnSettings, c.FilteringEnabled, c.SafeBrowsingEnabled, c.ParentalEnabled, c.SafeSearchConf.Enabled, c.UseOwnBlockedServices, c.BlockedServices.IDs, schedText(c.BlockedServices.Schedule))}
+		out[c.Name] = clientSnap{ids: ids, settings: fmt.Sprintf("own=%v/%v/%v/%v/%v svc=%v/%v pause=%s ignore_log=%v ignore_stats=%v", c.UseOwnSettings, c.FilteringEnabled, c.SafeBrowsingEnabled, c.ParentalEnabled, c.SafeSearchConf.Enabled, c.UseOwnBlockedServices, c.BlockedServices.IDs, schedText(c.BlockedServices.Schedule), c.IgnoreQueryLog, c.IgnoreStatistics)}
 		return true
 	})
 	return out
